@@ -500,7 +500,6 @@ func c02Check(c *Ctx, cnt *counterSet, idx int, m *refmsg.Msg, w []byte) (reject
 	return ""
 }
 
-
 // c02BoundaryMsg: question, one opaque record sized so that (in mosproxy's compressed encoding) the
 // owner name of the next record starts exactly at offset target, then records that use that name
 // again as owner and inside RDATA.
